@@ -109,25 +109,33 @@ def binImgs(data, n):
     
     n = int(numpy.round(n))
 
+    # the block sums of integer (or boolean) images do not fit the image's own
+    # type in general: sum them in a 64 bit integer instead of wrapping around
+    dtype = data.dtype
+    if dtype.kind == "u":
+        dtype = numpy.dtype("uint64")
+    elif dtype.kind in "ib":
+        dtype = numpy.dtype("int64")
+
     if len(data.shape)==2:
         shape[-1]/=n
-        binnedImgTmp = numpy.zeros( shape, dtype=data.dtype )
+        binnedImgTmp = numpy.zeros( shape, dtype=dtype )
         for i in range(n):
             binnedImgTmp += data[:,i::n]
         shape[-2]/=n
-        binnedImg = numpy.zeros( shape, dtype=data.dtype )
+        binnedImg = numpy.zeros( shape, dtype=dtype )
         for i in range(n):
             binnedImg += binnedImgTmp[i::n,:]
 
         return binnedImg
     else:
         shape[-1]/=n
-        binnedImgTmp = numpy.zeros ( shape, dtype=data.dtype )
+        binnedImgTmp = numpy.zeros ( shape, dtype=dtype )
         for i in range(n):
             binnedImgTmp += data[...,i::n]
 
         shape[-2] /= n
-        binnedImg = numpy.zeros( shape, dtype=data.dtype )
+        binnedImg = numpy.zeros( shape, dtype=dtype )
         for i in range(n):
             binnedImg += binnedImgTmp[...,i::n,:]
 
